@@ -488,6 +488,69 @@ def run_resumed(raw_lines, tbq):
     return {'per': None, 'flat': flat, 'exc': exc, 'state': None}
 
 
+class _PolledSource:
+    """A line source that runs dry at given positions (a log file that is polled while it is being written): iteration
+    stops there (StopIteration), and goes on from the same position when the source is iterated again."""
+
+    def __init__(self, lines, stops):
+        self.lines, self.stops, self.pos, self.paused_at = lines, set(stops), 0, -1
+
+    def __iter__(self):
+        return self
+
+    def __next__(self):
+        if self.pos >= len(self.lines):
+            raise StopIteration
+        if self.pos in self.stops and self.paused_at != self.pos:
+            self.paused_at = self.pos
+            raise StopIteration
+        self.pos += 1
+        return self.lines[self.pos - 1]
+
+
+def quiescent_points(seq):
+    """positions p (0 < p < len) such that no multi-fragment message is partly received after the first p lines"""
+    seen, pts = {}, []
+    for p, d in enumerate(seq):
+        if p and not any(0 < n < c for n, c in seen.values()):
+            pts.append(p)
+        if d['kind'] == 'frag' and d['cnt'] > 1:
+            n, c = seen.get(d['msg'], (0, d['cnt']))
+            seen[d['msg']] = (n + 1, c)
+    return pts
+
+
+def run_polled(name, raw_lines, stops, tbq):
+    """ONE reader object over a source that runs dry at the positions `stops` (all of them quiescent: no fragment pending);
+    the reader is iterated to exhaustion, then -- more lines have arrived -- iterated again, and so on.  The pending
+    wrapper is state of the reader object and survives; fragments would not (they are per-iteration state), hence the
+    quiescent positions.  -> res without per-line attribution."""
+    import pyais.stream as ps
+    q = ps.TagBlockQueue() if tbq else None
+    flat, exc = [], None
+    if name == 'BinaryIOStream':
+        f = io.BytesIO()
+        reader = ps.BinaryIOStream(f, tbq=q)
+        cuts = [0] + sorted(stops) + [len(raw_lines)]
+        batches = [raw_lines[a:b] for a, b in zip(cuts, cuts[1:])]
+    else:
+        src = _PolledSource(list(raw_lines), stops)
+        reader = ps.IterMessages(src, tbq=q) if name == 'IterMessages' else ps.ByteStream(src, tbq=q)
+        batches = [None] * (len(stops) + 1)
+    try:
+        for b in batches:
+            if b is not None:            # the writer appends a batch of lines; the reader's position stays where it was
+                at = f.tell()
+                f.seek(0, 2)
+                f.write(b''.join(b))
+                f.seek(at)
+            for s in reader:
+                flat.append((tok_delivered(s), attrs(s), s))
+    except Exception as e:   # noqa: BLE001
+        exc = type(e).__name__
+    return {'per': None, 'flat': flat, 'exc': exc, 'state': None}
+
+
 def lines_for(name, lines, term):
     """The byte strings handed to a front-end for a sequence of lines: the file-like and socket front-ends need a
     line terminator, the in-memory ones take the lines as they are (or with the same terminator)."""
@@ -812,7 +875,7 @@ def oracle_decode(seq, res, name):
 # ------------------------------------------------------------------------------------------------ one case, all front-ends
 
 def run_case(ctx, seq, label, term=b'', tbq=False, frontends=None, cache=None, tmpdir=None, want=('C03', 'C07', 'C18'),
-             scoped=None):
+             scoped=None, stops=None):
     """Run one sequence through the front-ends; correspondence always, the oracles of `want` when the sequence is inside
     the properties' quantifier.  Returns {front-end: res}."""
     rep = ctx.rep
@@ -876,6 +939,30 @@ def run_case(ctx, seq, label, term=b'', tbq=False, frontends=None, cache=None, t
             for comp, kind, text in oracle_c03(spec_per, res3, 'ByteStream/resumed'):
                 rep.violation({'entry': 'ByteStream/resumed', 'component': comp, 'kind': kind}, f'{text} [{label}]',
                               {'seq': seq, 'term': term.hex(), 'tbq': tbq, 'frontend': 'ByteStream/resumed'})
+    if label.startswith('sequential') and 'ByteStream' in frontends:
+        # the source runs dry at quiescent points (always right after a wrapper line) and the SAME reader is iterated again when
+        # more lines have arrived: deliveries and their wrappers must be those of uninterrupted reading
+        import random as _random
+        r3 = _random.Random(len(lines) * 104729 + sum(len(x) for x in lines))
+        pts = quiescent_points(seq)
+        if stops is None:
+            stops = sorted(p for p in pts if seq[p - 1]['kind'] == 'wrapper' or r3.random() < 0.4)
+        else:
+            stops = sorted(set(stops) & set(pts))                 # (a replay: the recorded positions)
+        for pname in ('IterMessages', 'ByteStream', 'BinaryIOStream'):
+            res4 = run_polled(pname, lines_for(pname, lines, term), stops, tbq)
+            nm4 = pname + '/polled'
+            results[nm4] = res4
+            rep.case((nm4, tbq, term, tuple(case['lines'])), kind='frontend:' + nm4)
+            rep.count('polled:stops', len(stops))
+            if scoped and ctx.model is not None:
+                rp = {'seq': seq, 'term': term.hex(), 'tbq': tbq, 'frontend': nm4, 'stops': stops}
+                if 'C03' in want:
+                    for comp, kind, text in oracle_c03(spec_per, res4, nm4):
+                        rep.violation({'entry': nm4, 'component': comp, 'kind': kind}, f'{text} [{label}]', rp)
+                if 'C18' in want:
+                    for comp, kind, text, cls in oracle_c18(ctx.model, seq, spec_per, res4, nm4):
+                        rep.violation({'entry': nm4, 'component': comp, 'kind': kind, 'class': cls}, f'{text} [{label}]', rp)
     if (scoped or pairwise_only) and 'C07' in want and len(frontends) > 1:
         for nm, comp, kind, text in oracle_c07(results):
             rep.violation({'entry': nm, 'component': comp, 'kind': kind}, f'{text} [{label}]',
@@ -927,7 +1014,11 @@ def sequential_schedule(rng, k):
             used.append((sq, ch))
         order = frs[:]
         rng.shuffle(order)
+        for _ in range(rng.choice([0, 0, 1, 1, 2])):          # wrapper line(s) in front of the message (the latest valid one counts)
+            seq.append(wrapper_line(rng, valid=rng.random() < 0.85))
         seq += order
+    if rng.random() < 0.3:
+        seq.append(wrapper_line(rng))                         # a trailing wrapper that nothing follows
     return seq
 
 
@@ -956,7 +1047,7 @@ def generated_cases(ctx, n_random, n_out):
             cases.append(('boundary:' + label, seq, rng.choice([b'', b'\n', b'\r\n']), tbq))
     for n in ((21, 30) if ctx.quick else (21, 22, 30, 41, 55)):
         cases.append(('many-in-flight', many_in_flight(rng, n), rng.choice([b'', b'\n']), False))
-    for _ in range(ctx.budget(4, 40)):
+    for _ in range(ctx.budget(12, 60)):
         cases.append(('sequential', sequential_schedule(rng, rng.choice([2, 3, 5, 8])), rng.choice([b'', b'\n', b'\r\n']),
                       rng.random() < 0.3))
     for seq in reuse_after_incomplete(rng):
@@ -1144,11 +1235,18 @@ def replay_case(ctx, data, want):
         fes = [data['frontend']]
         if data.get('reference'):
             fes = [data['reference'], data['frontend']]
+        label = 'replay'
+        if any('/' in f for f in fes):
+            # a derived front-end (ByteStream/resumed, <reader>/polled, SocketStream/chunked): run_case derives them from the
+            # plain ones of a 'sequential' case
+            label = 'sequential:replay'
+            fes = sorted({f.split('/')[0] for f in fes} | ({'ByteStream'} if any('/polled' in f or '/resumed' in f for f in fes) else set()))
         before = len(ctx.rep.violations)
-        run_case(ctx, data['seq'], 'replay', term=bytes.fromhex(data['term']), tbq=data['tbq'], frontends=fes, tmpdir=tmpdir,
-                 want=want)
+        run_case(ctx, data['seq'], label, term=bytes.fromhex(data['term']), tbq=data['tbq'], frontends=fes, tmpdir=tmpdir,
+                 want=want, stops=data.get('stops'))
         new = ctx.rep.violations[before:]
-        return new[0]['what'] if new else None
+        same = [v for v in new if v['signature'].get('entry') == data['frontend']]
+        return (same or new)[0]['what'] if new else None
     finally:
         shutil.rmtree(tmpdir, ignore_errors=True)
         if own:
